@@ -1,7 +1,7 @@
 """Driver configuration for C20 (simulator verdict and run invariants)."""
 
 CFG = dict(
-    tests=["TestC20"],
+    tests=["TestC20", "TestC20Race"],
     n_quick=100, n_thorough=500, shards_thorough=2,
     timeout_quick=900, timeout_thorough=3000,
     rule="five case files from one PRNG. fms: findMedianAndSplitData (verif-tag export) on every length 0..40 x 4 data shapes + VERIF_N random "
